@@ -97,7 +97,11 @@ class Result:
         for k, n in o.counters.items():
             self.counters[k] = self.counters.get(k, 0) + n
         for k, val in o.extra.items():
-            self.extra.setdefault(k, val)
+            if isinstance(val, dict) and isinstance(self.extra.get(k), dict):
+                for k2, v2 in val.items():
+                    self.extra[k].setdefault(k2, v2)
+            else:
+                self.extra.setdefault(k, val)
         return self
 
 
